@@ -125,6 +125,8 @@ def cr(A, b, x0=None, tol=1e-5, criteria='rr',
     elif criteria == 'MrMr':
         normr = np.sqrt(zz)
         normMb = norm(M @ b)
+        if normMb == 0.0:
+            normMb = 1.0  # absolute tolerance, as for ||b|| = 0
         rtol = tol * normMb
     else:
         raise ValueError('Invalid stopping criteria.')
